@@ -3,6 +3,9 @@ import WuffsVerif.Model.Interval
 /-! Line driver for C06 (lib/interval).  Ops (bounds: decimal, or `inf` = nil):
   add|sub|mul|quo|lsh|rsh|and|or|unite|intersect xlo xhi ylo yhi  -> ok lo hi | fail | panic
   andmax|ormax xlo xhi ylo yhi -> v n | panic
+  abnn|obnn|aonn|oonn xlo xhi ylo yhi -> ok lo hi | panic   (andBothNonNeg, orBothNonNeg,
+      andOneNegOneNonNeg(neg, non), orOneNegOneNonNeg(neg, non); panic = pre-condition failure)
+  ipu zlo zhi wlo whi -> ok lo hi                            (z.inPlaceUnite(w), new value of z)
   bfr n -> v n | panic
   split2|split3 lo hi -> ...
 -/
@@ -39,6 +42,13 @@ def c06Step (l : List String) : String :=
       | "quo" => okOpt (tryQuo x y) "fail"
       | "lsh" => okOpt (tryLsh x y) "fail"
       | "rsh" => okOpt (tryRsh x y) "fail"
+      | "abnn" => okOpt (andBothNonNeg x y) "panic"
+      | "obnn" => okOpt (orBothNonNeg x y) "panic"
+      | "aonn" => okOpt (andOneNegOneNonNeg x y) "panic"
+      | "oonn" =>
+        -- the Go orOneNegOneNonNeg has no pre-condition check of its own: same as the model
+        okOpt (orOneNegOneNonNeg x y) "panic"
+      | "ipu" => "ok " ++ showIR (inPlaceUnite x y)
       | "and" => okOpt (Interval.and x y) "panic"
       | "or" => okOpt (Interval.or x y) "panic"
       | "andmax" | "ormax" =>
